@@ -8,6 +8,9 @@ import tempfile
 from native.harness import run_wsgi, run_asgi, wsgi_environ, asgi_scope
 
 
+CHUNK_ALPHABET = (b"", b"a", b"bc")
+
+
 def norm_headers(hs, iface):
     out = []
     for k, v in hs or []:
@@ -104,7 +107,29 @@ def inner_apps(tmpdir):
     async def araw_dup(scope, receive, send):
         await send({"type": "http.response.start", "status": 200, "headers": [(b"set-cookie", b"a=1"), (b"set-cookie", b"b=2")]})
         await send({"type": "http.response.body", "body": b"x"})
-    raw = {"raw_list": (raw_list, araw, False), "raw_tuple": (raw_tuple, araw, False), "raw_gen": (raw_gen, araw, False),
+    def chunk_apps(kind, chunks):
+        def wapp(environ, start_response):
+            start_response("200 OK", [("X-Raw", "1")])
+            if kind == "list":
+                return list(chunks)
+            if kind == "tuple":
+                return tuple(chunks)
+            return (c for c in chunks)
+
+        async def aapp(scope, receive, send):
+            await send({"type": "http.response.start", "status": 200, "headers": [(b"x-raw", b"1")]})
+            for c in chunks:
+                await send({"type": "http.response.body", "body": c, "more_body": True})
+            await send({"type": "http.response.body", "body": b""})
+        return wapp, aapp, False
+
+    extra = {}
+    import itertools
+    for n in range(0, 4):
+        for seq in itertools.product(CHUNK_ALPHABET, repeat=n):
+            for kind in ("list", "tuple", "gen"):
+                extra["chunks/%s/%s" % (kind, ",".join(c.decode() or "-" for c in seq))] = chunk_apps(kind, seq)
+    raw = {**extra, "raw_list": (raw_list, araw, False), "raw_tuple": (raw_tuple, araw, False), "raw_gen": (raw_gen, araw, False),
            "raw_empty": (raw_empty, araw_empty, False), "raw_dup_headers": (raw_dup, araw_dup, True)}
     return apps, raw
 
@@ -280,10 +305,23 @@ def bounded(tier, seed):
         shutil.rmtree(d, ignore_errors=True)
     return {"evaluations": evals, "distinct_nontrivial": len(distinct), "failures": failures, "samples": samples,
             "rule": "inner applications: every bundled response class (incl. multi-chunk stream, file, 1 and 2 cookies, unknown "
-                    "status), raw apps returning a list / tuple / generator / empty iterable / duplicate header names; identity "
+                    "status), raw apps returning a list / tuple / generator / empty iterable / duplicate header names, and raw apps for "
+                    "every chunk sequence of length <= 3 over {b'', b'a', b'bc'} as list, tuple and generator; identity "
                     "middleware and decorator stacks of depth 0..3; both interfaces; compared with the bare application "
                     "(status, header multiset up to name case, body bytes, inner app ran once); one header-editing middleware",
             "exhaustive": False}
+
+
+def replay_ensure_next(inputs):
+    """solver counterexample of contracts/c20.py wsgi.ensure_next: the body relayed for a given chunk list"""
+    from baize.wsgi.middleware import ensure_next
+    items = [x.encode("latin-1") if isinstance(x, str) else bytes(x) for x in inputs["items"]]
+    src = list(items) if inputs.get("reiterable", True) else (c for c in items)
+    got = b"".join(ensure_next(src))
+    v = []
+    if got != b"".join(items):
+        v.append("ensure_next relayed %r for chunks %r" % (got, items))
+    return {"violated": v}
 
 
 def replay_edit(inputs):
